@@ -654,6 +654,167 @@ def loose_ksat(n, ratio, seed, k=3):
     return planted_ksat(n, ratio, f"loose-{seed}", k=k, hidden=1)
 
 
+# ------------------------------------------------------------------ round 3: enumeration-structure family
+# Formulas whose exact model count is known by construction: variable-disjoint parts, the count of each part by brute
+# force over the part's own (<= 12) variables and cross-checked against its closed form, the count of the formula = the
+# product.  Every formula is presented under many variable numberings / polarities (the solver decides low numbers
+# first, value True first; the literal order inside blocking / learned clauses follows the numbering).
+# Variable classes: "free" (unconstrained), "bb" (backbone: same value in every model, but implied only after resolution -
+# no unit clause, no unit propagation from the empty assignment says so), "aux" (the helper variables of a backbone
+# gadget), "grp" (equivalence classes / at-most-one / exactly-one groups), "core" (small random cores).
+ENUM_NUMBERINGS = ("identity", "reversed", "backbone-first", "backbone-last", "grouped", "grouped-reversed", "aux-first",
+                   "interleaved")
+
+
+def _enum_part(part):
+    """one part over local variables 1..n: (clauses, classes[1..n] as a list, closed-form model count or None)"""
+    kind = part[0]
+    if kind == "free":  # k unconstrained variables, mentioned in tautologies only
+        k, style = part[1], (part[2] if len(part) > 2 else "taut2")
+        cl = [[v, -v] if style == "taut2" else [v, -v, v % k + 1] for v in range(1, k + 1)]
+        return cl, ["free"] * k, 2 ** k
+    if kind == "bb":  # m gadgets (h or y), (h or not y): h true in every model, found out only through a conflict
+        m, cl, cls = part[1], [], []
+        for i in range(m):
+            h, y = 2 * i + 1, 2 * i + 2
+            cl += [[h, y], [h, -y]]
+            cls += ["bb", "aux"]
+        return cl, cls, 2 ** m
+    if kind == "bb3":  # m gadgets: h or every sign pattern of (y, z) - four ternary clauses
+        m, cl, cls = part[1], [], []
+        for i in range(m):
+            h, y, z = 3 * i + 1, 3 * i + 2, 3 * i + 3
+            cl += [[h, y, z], [h, y, -z], [h, -y, z], [h, -y, -z]]
+            cls += ["bb", "aux", "aux"]
+        return cl, cls, 4 ** m
+    if kind == "bbchain":  # not h -> y1 -> y2 -> ... -> yL and not h -> not yL: h true; the y are a monotone chain
+        L = part[1]
+        h = 1
+        ys = list(range(2, L + 2))
+        cl = [[h, ys[0]]] + [[-ys[i], ys[i + 1]] for i in range(L - 1)] + [[h, -ys[-1]]]
+        return cl, ["bb"] + ["aux"] * L, L + 1
+    if kind == "bbshared":  # m backbone variables that share one helper
+        m = part[1]
+        y = m + 1
+        cl = [c for h in range(1, m + 1) for c in ([h, y], [h, -y])]
+        return cl, ["bb"] * m + ["aux"], 2
+    if kind == "bbpair":  # two backbone variables implied through each other: (h1 or y), (h1 or not y), (not h1 or h2)
+        cl = [[1, 3], [1, -3], [-1, 2]]
+        return cl, ["bb", "bb", "aux"], 2
+    if kind == "eq":  # x1 <-> x2 <-> ... <-> xs (a cycle of implications)
+        s = part[1]
+        return [[-v, v % s + 1] for v in range(1, s + 1)], ["grp"] * s, 2
+    if kind == "amo":  # at most one of g
+        g = part[1]
+        return [[-a, -b] for a in range(1, g + 1) for b in range(a + 1, g + 1)], ["grp"] * g, g + 1
+    if kind == "exo":  # exactly one of g
+        g = part[1]
+        return [list(range(1, g + 1))] + [[-a, -b] for a in range(1, g + 1) for b in range(a + 1, g + 1)], ["grp"] * g, g
+    if kind == "core":  # random clauses of 2-3 literals over n <= 10 variables, reseeded until satisfiable; count by brute force
+        n, m, seed = part[1], part[2], part[3]
+        for t in range(50):
+            rng = random.Random(f"enum-core-{n}-{m}-{seed}-{t}")
+            cl = [[rng.choice((-1, 1)) * v for v in rng.sample(range(1, n + 1), rng.choice((2, 3, 3)))] for _ in range(m)]
+            cl += [[v, -v] for v in range(1, n + 1) if not any(abs(l) == v for c in cl for l in c)]
+            if has_model(cl, []):
+                return cl, ["core"] * n, None
+        raise AssertionError("checker defect: no satisfiable core found")
+    raise AssertionError(f"checker defect: unknown part {kind}")
+
+
+_PART_COUNT = {}
+
+
+def enum_part_count(part):
+    """model count of one part: brute force over its own variables, cross-checked against the closed form"""
+    key = repr(part)
+    if key not in _PART_COUNT:
+        cl, cls, closed = _enum_part(part)
+        if len(cls) > 12:
+            raise AssertionError("checker defect: part too large for the brute-force count")
+        n = len(brute_models(cl, [], len(cls)))
+        if closed is not None and closed != n:
+            raise AssertionError(f"checker defect: closed-form count {closed} of part {part} differs from brute force {n}")
+        _PART_COUNT[key] = n
+    return _PART_COUNT[key]
+
+
+def enum_struct_count(parts):
+    n = 1
+    for p in parts:
+        n *= enum_part_count(p)
+    return n
+
+
+def _enum_order(classes, numbering):
+    """classes[i] = class of the i-th variable in creation order; returns the creation indices in numbering order"""
+    idx = list(range(len(classes)))
+    by = lambda *names: [i for nm in names for i in idx if classes[i] == nm]  # noqa: E731
+    rest = lambda *names: [i for i in idx if classes[i] not in names]  # noqa: E731
+    if numbering == "identity":
+        return idx
+    if numbering == "reversed":
+        return idx[::-1]
+    if numbering == "backbone-first":
+        return by("bb") + rest("bb")
+    if numbering == "backbone-last":
+        return rest("bb") + by("bb")
+    if numbering == "grouped":  # free, groups, cores, then the backbone, then its helpers
+        return by("free", "grp", "core", "bb", "aux")
+    if numbering == "grouped-reversed":
+        return by("free", "grp", "core", "bb", "aux")[::-1]
+    if numbering == "aux-first":
+        return by("aux") + rest("aux", "bb") + by("bb")
+    if numbering == "interleaved":  # round robin over the classes
+        qs = [q for q in (by("bb"), by("free"), by("aux"), by("grp"), by("core")) if q]
+        out = []
+        while any(qs):
+            for q in qs:
+                if q:
+                    out.append(q.pop(0))
+        return out
+    if isinstance(numbering, str) and numbering.startswith("perm"):
+        out = list(idx)
+        random.Random(f"enum-{numbering}").shuffle(out)
+        return out
+    raise AssertionError(f"checker defect: unknown numbering {numbering}")
+
+
+@generator
+def enum_struct(parts, numbering="identity", polarity="pos", shuffle=None):
+    """variable-disjoint parts (see _enum_part) glued together; numbering = which variables get the low numbers;
+    polarity: "pos" as built (backbone true), "neg" every variable flipped, "bbneg" only the backbone flipped,
+    "rand<seed>" random flips; shuffle = seed for the order of the clauses and of the literals inside them"""
+    cl, classes = [], []
+    for p in parts:
+        pcl, pcls, _ = _enum_part(p)
+        off = len(classes)
+        cl += [[(abs(l) + off) * (1 if l > 0 else -1) for l in c] for c in pcl]  # creation index + 1
+        classes += pcls
+    order = _enum_order(classes, numbering)
+    if sorted(order) != list(range(len(classes))):
+        raise AssertionError("checker defect: numbering is not a permutation")
+    num = {ci + 1: pos + 1 for pos, ci in enumerate(order)}
+    if polarity == "pos":
+        sg = {v: 1 for v in num}
+    elif polarity == "neg":
+        sg = {v: -1 for v in num}
+    elif polarity == "bbneg":
+        sg = {v: (-1 if classes[v - 1] == "bb" else 1) for v in num}
+    elif polarity.startswith("rand"):
+        r = random.Random(f"enum-pol-{polarity}")
+        sg = {v: r.choice((1, -1)) for v in sorted(num)}
+    else:
+        raise AssertionError(f"checker defect: unknown polarity {polarity}")
+    out = [[num[abs(l)] * sg[abs(l)] * (1 if l > 0 else -1) for l in c] for c in cl]
+    if shuffle is not None:
+        r = random.Random(f"enum-shuffle-{shuffle}")
+        for c in out:
+            r.shuffle(c)
+        r.shuffle(out)
+    return out, None, None
+
+
 def rename(clauses, witness, seed):
     """random renumbering of the variables + random polarity flips + clause / literal shuffles (preserves satisfiability;
     the witness is mapped along).  The solver decides low numbers first, value True first, so this changes the search."""
